@@ -50,7 +50,8 @@ for cdf in (0, 1, 255, 256):
         GROUPS.append(G("apdu.cmd_enc.cdf%d.search" % cdf, "harness/C08/apdu.c", "h_apdu_cmd_enc", APDU, defs=["CDF=%d" % cdf], level="N",
                         backend="native", search=300000, fn=["apduCmdEnc", "apduCmdDec"], note="native stand-in for the long-Lc forms; NOT proof"))
 STR = ["src/core/hex.c", "src/core/b64.c", "src/core/dec.c", "src/core/str.c", "src/core/mem.c", "src/core/util.c", "src/core/word.c", "src/core/u16.c", "src/core/u32.c", "src/core/u64.c"]
-for ent, fns, lens in (("h_hex", ["hexIsValid", "hexTo", "hexToRev", "hexFrom", "hexFromRev", "hexEq", "hexEq_fast", "hexEqRev", "hexEqRev_fast"], (0, 1, 2, 5, 6)),
+STR += ["src/core/oid.c", "src/core/der.c"]
+for ent, fns, lens in (("h_oid", ["oidIsValid", "oidToDER", "oidFromDER"], (3, 5, 12)), ("h_hex", ["hexIsValid", "hexTo", "hexToRev", "hexFrom", "hexFromRev", "hexEq", "hexEq_fast", "hexEqRev", "hexEqRev_fast"], (0, 1, 2, 5, 6)),
                        ("h_b64", ["b64IsValid", "b64To", "b64From"], (0, 3, 4, 7, 8)),
                        ("h_dec", ["decIsValid", "decCLZ", "decToU32", "decFromU32", "decLuhnCalc", "decLuhnVerify", "decDammCalc", "decDammVerify"], (1, 4, 9))):
     for ln in lens:
